@@ -231,6 +231,13 @@ def run(chk, repo, tier):
     p = rets_c[0]
     mesh = p.calls('helper.mesh')
     cen = p.calls('util.centroid')
+    if len(mesh) == 1 and not cen:
+        # the default origin is computed some other way than from lentil.centroid(mask): the midpoint of the bounding box, the
+        # array centre ... coincide with the centroid for symmetric masks only
+        for ax in (0, 1):
+            chk.ob('C11-d', 'N-origin', fc.key, f'axis {ax}: mesh origin floor(n/2) + shift = centroid', False,
+                   f'shift = {fmt(mesh[0].bound.get("shift"))[:100]}: not derived from the centroid of the mask', fc.loc(mesh[0].node))
+        mesh = []
     if len(mesh) != 1 or len(cen) != 1:
         raise AnalysisError('zernike_coordinates: expected one helper.mesh and one centroid call')
     sh = mesh[0].bound.get('shift')
@@ -301,6 +308,16 @@ def run(chk, repo, tier):
         okl = None if not okl else okl
     chk.ob('C11-f', 'N-formula', fr.key, 'summand = (-1)^k (n-k)! / (k! ((n+m)/2-k)! ((n-m)/2-k)!) rho^(n-2k)', okt, det, fr.loc())
     chk.ob('C11-f', 'N-formula', fr.key, 'k runs over 0 .. (n-m)/2', okl, '', fr.loc())
+    # what is returned is the sum itself - for every rho, rho = 1 (where every mode of the basis has radial part 1) included
+    wrapped = []
+    for p in rets_r:
+        ra = p.ret.single_atom() if isinstance(p.ret, Poly) else None
+        if ra is not None and is_app(ra, ('where', 'clip', 'select', 'putmask', 'setitem', 'ifexp', 'piecewise')) and \
+                any(x[0] == 'loop' for x in nf.value_atoms(p.ret)):
+            wrapped.append(fmt(p.ret)[:100])
+    chk.ob('C11-f', 'N-formula', fr.key, 'the radial polynomial is returned as summed (no values replaced afterwards)',
+           (not wrapped) if rets_r else None, '; '.join(wrapped[:1]) + (': samples selected by rho get another value than the polynomial'
+                                                                       if wrapped else ''), fr.loc())
 
 
 def _bare_use(v):
